@@ -77,7 +77,7 @@ def _c01(seed, quick):
     n, b = (140, 40) if quick else (2000, 400)
     m, mb = (25, 40) if quick else (500, 400)
     return {
-        "shards": seq_shards("C01", seed, n, b, shards=7) + conc_shards("C01", seed, "mixed", m, mb, shards=7) + conc_shards("C01", seed, "update-sweep", 120 if quick else 3000, mb, shards=1) + conc_shards("C01", seed, "sweep-other-key", 108 if quick else 3000, mb, shards=1),
+        "shards": seq_shards("C01", seed, n, b, shards=7) + conc_shards("C01", seed, "mixed", m, mb, shards=7) + conc_shards("C01", seed, "update-sweep", 120 if quick else 3000, mb, shards=1) + conc_shards("C01", seed, "sweep-other-key", 144 if quick else 3000, mb, shards=1),
         "rule": SEQ_RULE + " " + CONC_RULE,
         "explanation": "Online invariant: every change of the total weight emits WeightChanged{site,new_total,max} under the total's own write lock "
                        "(add / update / delete); the recorder asserts 0 <= new_total <= max at that instant. Two observer threads spin on the public "
@@ -113,7 +113,7 @@ def _c05(seed, quick):
     m, mb = (25, 40) if quick else (500, 400)
     n, b = (100, 40) if quick else (2000, 400)
     return {
-        "shards": conc_shards("C05", seed, "same-key", 24 if quick else 400, mb, shards=3) + conc_shards("C05", seed, "update-sweep", 120 if quick else 3000, mb, shards=2) + conc_shards("C05", seed, "sweep-reput", 60 if quick else 3000, mb, shards=1) + conc_shards("C05", seed, "mixed", m, mb, shards=6) + seq_shards("C05", seed, n, b, shards=4),
+        "shards": conc_shards("C05", seed, "same-key", 24 if quick else 400, mb, shards=3) + conc_shards("C05", seed, "update-sweep", 120 if quick else 3000, mb, shards=1) + conc_shards("C05", seed, "sweep-other-key", 144 if quick else 3000, mb, shards=1) + conc_shards("C05", seed, "sweep-reput", 60 if quick else 3000, mb, shards=1) + conc_shards("C05", seed, "mixed", m, mb, shards=6) + seq_shards("C05", seed, n, b, shards=4),
         "rule": CONC_RULE + " " + SEQ_RULE,
         "explanation": "At quiescent points (every command acknowledged, two sweeps completed since the clock stopped) the snapshot must satisfy: total = sum of "
                        "charged weights, charged ids = ids of held entries, and after deleting every key total_weight_used() = 0. Directed races: two puts of one "
@@ -121,7 +121,7 @@ def _c05(seed, quick):
                        "held), put racing upsert, delete racing put; worker-vs-sweeper races on the same keys (TTL keys updated / deleted / re-put while the clock crosses their expiry, with one "
                        "critical section or gap stretched by a long bounded delay so that the other thread's step lands inside it); plus free-running mixed histories with un-awaited writes, eviction and sweeps.",
         "assumptions": COMMON_ASSUMPTIONS,
-        "require": ["quiescent_points_checked", "races_where_both_writes_passed_the_existence_check_before_the_first_was_applied", "delete_everything_checks", "reputs_completed_while_the_sweeper_was_stretched", "forced_long_delays_hit"],
+        "require": ["quiescent_points_checked", "races_where_both_writes_passed_the_existence_check_before_the_first_was_applied", "delete_everything_checks", "reputs_completed_while_the_sweeper_was_stretched", "forced_long_delays_hit", "upserts_of_an_expired_key_made_while_the_sweeper_held_the_shard"],
     }
 
 
@@ -166,7 +166,7 @@ def _c11(seed, quick):
 def _c12(seed, quick):
     m, mb = (25, 40) if quick else (500, 400)
     plan = {
-        "shards": comp_shards("C12", seed, "c12-directed", 1, 120, shards=1) + comp_shards("C12", seed, "c12-stress", 1500 if quick else 60000, mb, shards=6) + conc_shards("C12", seed, "mixed", m, mb, shards=7) + conc_shards("C12", seed, "shutdown", 400 if quick else 40000, mb, shards=2),
+        "shards": comp_shards("C12", seed, "c12-directed", 1, 120, shards=1) + comp_shards("C12", seed, "c12-stress", 1500 if quick else 60000, mb, shards=5) + conc_shards("C12", seed, "mixed", m, mb, shards=6) + conc_shards("C12", seed, "shutdown", 800 if quick else 40000, mb, shards=4),
         "rule": "Directed: all placements of 1-3 sequential polls (same or fresh waker) into the four gaps of done() {before, between its two stores, before the wake, "
                 "after return} x 3 final statuses, the completer held by gates at the lock-free schedule points: 312 cases, exhaustive at that granularity. Stress: "
                 "an executor-like poller (waits for its own waker, spurious re-polls, waker changes; sometimes two tasks on one handle) vs done() with seeded delays "
@@ -177,7 +177,7 @@ def _c12(seed, quick):
                        "Pending after Ready, a task whose last poll was Pending not being woken although done() returned (decided logically: the wake happens inside "
                        "done(), so once done() has returned the wake count must be non-zero), or an acknowledgement unresolved at quiescence.",
         "assumptions": ["'eventually completes' is restated as: resolved by the time every sent command has been acknowledged by the worker"],
-        "require": ["polls_inside_gap_1", "polls_inside_gap_2", "wake_obligations_checked", "stress_polls", "acks:Accepted", "acknowledgements_of_commands_behind_shutdown"],
+        "require": ["polls_inside_gap_1", "polls_inside_gap_2", "wake_obligations_checked", "stress_polls", "acks:Accepted", "acknowledgements_of_commands_behind_shutdown", "acknowledgements_first_polled_by_another_task"],
     }
     import sanit
     plan["extras"] = [sanit.miri_ack_quick_extra] if quick else [sanit.miri_ack_extra]
@@ -197,7 +197,7 @@ def _c13(seed, quick):
                        "real waker and must carry the ExecEnd status if the command ran or ShuttingDown if it was drained behind Shutdown; exactly one Shutdown "
                        "command may be executed; shutdown() not returning is decided by the logical-hang test (every thread in futex wait, no progress).",
         "assumptions": ["'no caller waits forever' is restated as: every acknowledgement resolves once the worker has drained the queue"],
-        "require": ["acknowledgements_of_commands_that_ran", "acknowledgements_of_commands_behind_shutdown", "post_shutdown_api_calls_checked", "writes_held_past_the_flag_check"],
+        "require": ["acknowledgements_of_commands_that_ran", "acknowledgements_of_commands_behind_shutdown", "post_shutdown_api_calls_checked", "writes_held_past_the_flag_check", "acknowledgements_first_polled_by_another_task"],
     }
 
 
@@ -260,29 +260,30 @@ def _c04_extra(seed, quick):
 
 
 def _c08_extra(seed, quick):
-    return conc_shards("C08", seed, "held-client", 600 if quick else 20000, 40 if quick else 400, shards=2) + conc_shards("C08", seed, "mixed", 30 if quick else 600, 40 if quick else 400, shards=2)
+    return (conc_shards("C08", seed, "held-client", 600 if quick else 20000, 40 if quick else 400, shards=1) + conc_shards("C08", seed, "mixed", 30 if quick else 600, 40 if quick else 400, shards=2)
+            + conc_shards("C08", seed, "locked-shard", 24 if quick else 2000, 40 if quick else 400, shards=1))
 
 
 def _c07_extra(seed, quick):
     return (conc_shards("C07", seed, "same-key", 24 if quick else 400, 40 if quick else 400, shards=1) + conc_shards("C07", seed, "held-client", 600 if quick else 20000, 40 if quick else 400, shards=1)
-            + conc_shards("C07", seed, "mixed", 40 if quick else 600, 40 if quick else 400, shards=4))
+            + conc_shards("C07", seed, "mixed", 40 if quick else 600, 40 if quick else 400, shards=3) + conc_shards("C07", seed, "locked-shard", 24 if quick else 2000, 40 if quick else 400, shards=1))
 
 
 def _c03_extra(seed, quick):
     # free-running concurrent histories without memory pressure (final value of every key whose last write was not overlapped) and the
     # directed sweeper-vs-reput race
     return (conc_shards("C03", seed, "mixed", 30 if quick else 600, 40 if quick else 400, shards=2) + conc_shards("C03", seed, "sweep-reput", 60 if quick else 3000, 40 if quick else 400, shards=1)
-            + conc_shards("C03", seed, "sweep-other-key", 108 if quick else 3000, 40 if quick else 400, shards=1))
+            + conc_shards("C03", seed, "sweep-other-key", 144 if quick else 3000, 40 if quick else 400, shards=1))
 
 
 def _c09_extra(seed, quick):
     # expiry under concurrency: clients record the harness clock around every call while an advancer thread moves it
-    return conc_shards("C09", seed, "mixed", 30 if quick else 600, 40 if quick else 400, shards=3) + conc_shards("C09", seed, "sweep-other-key", 108 if quick else 3000, 40 if quick else 400, shards=1)
+    return conc_shards("C09", seed, "mixed", 30 if quick else 600, 40 if quick else 400, shards=3) + conc_shards("C09", seed, "sweep-other-key", 144 if quick else 3000, 40 if quick else 400, shards=1)
 
 
 def _c10_extra(seed, quick):
     return (conc_shards("C10", seed, "sweep-reput", 60 if quick else 3000, 40 if quick else 400, shards=1) + conc_shards("C10", seed, "update-sweep", 120 if quick else 3000, 40 if quick else 400, shards=1)
-            + conc_shards("C10", seed, "sweep-other-key", 108 if quick else 3000, 40 if quick else 400, shards=2))
+            + conc_shards("C10", seed, "sweep-other-key", 144 if quick else 3000, 40 if quick else 400, shards=2))
 
 
 def _c16_extra(seed, quick):
@@ -326,13 +327,13 @@ SEQ_ONLY = {
         "extra_shards": _c07_extra,
         "explanation": "All four put variants against keys in every life-cycle state (never written, live, live with TTL, deleted and acknowledged, "
                        "swept, past TTL but unswept): a readable key must answer KeyAlreadyExists and stay untouched, an absent-reading key must never.",
-        "require": ["critical:put-on-readable-key", "puts_accepted", "races_where_both_writes_passed_the_existence_check_before_the_first_was_applied", "writes_to_a_definitely_present_key_judged", "coherence_probes"],
+        "require": ["critical:put-on-readable-key", "puts_accepted", "races_where_both_writes_passed_the_existence_check_before_the_first_was_applied", "writes_to_a_definitely_present_key_judged", "coherence_probes", "puts_of_a_readable_key_under_lock_contention"],
     },
     "C08": {
         "explanation": "All builder-accepted upsert shapes against keys in the states absent, live, live+ttl, expired-unswept, soft-deleted "
                        "(worker held so that the Delete is still queued); value, expiry (through get_ref) and charged weight (snapshot) are compared "
                        "with the model right after the call and at the next quiescent point.",
-        "require": ["upserts_taking_put_path", "structure_checks", "pipelined_upsert_bursts_checked", "writes_to_a_definitely_present_key_judged"],
+        "require": ["upserts_taking_put_path", "structure_checks", "pipelined_upsert_bursts_checked", "writes_to_a_definitely_present_key_judged", "upserts_of_a_readable_key_under_lock_contention"],
         "extra_shards": _c08_extra,
     },
     "C09": {
